@@ -1,8 +1,11 @@
 import Afkak.ClientNet
 /-!
 # Monitor for C11 — every broker request is bounded by the client timeout.
-A decidable predicate over an OBSERVED trace (`List TItem`) of the real `KafkaClient`; the same
-checks are proved of the model (`AfkakProps/C11.lean`).  It does not use the model's `step`.
+A decidable predicate over an OBSERVED trace (`List TItem`) of the real `KafkaClient`.  It does not use
+the model's `step`.  The CORE rules (`fails`) are proved of every trace of the model
+(`AfkakProofs/Client/MonC11.lean`, `AfkakProps/C11.lean: C11_model_traces_satisfy_monitor`); the EXTRA
+rules (`extraFails`) need the harness's transport annotations or facts about operation results and are
+evaluated on the implementation's traces only.
 -/
 namespace Afkak.Monitor.C11
 open Afkak.ClientNet Afkak.ClientCache
@@ -14,32 +17,33 @@ structure MReq where
   due : Option Rat := none
   pending : Bool := true
   /-- the group of a `_send_request_to_coordinator` request -/
-  group : Option String := none
-  /-- the connection the request was last written to -/
+  grp : Option String := none
+  /-- the connection the request was last written to (harness annotation) -/
   conn : Option Nat := none
-  deriving Repr
+  deriving Repr, DecidableEq
 
 structure MSt where
   now : Rat := 0
   reqs : List MReq := []
-  /-- unfinished `_send_request_to_coordinator` calls: operation, group, `min_timeout` -/
-  srtcs : List (Nat × String × Option Rat) := []
-  /-- connections that must be told to close before the step ends (the timed-out requests' connections) -/
-  owedLose : List Nat := []
-  /-- connections already told to close (or dropped by the network) -/
-  gone : List Nat := []
+  /-- `(group, min_timeout)` of every `_send_request_to_coordinator` call seen so far -/
+  seen : List (String × Option Rat) := []
   /-- the event of the current step -/
   cur : Option Ev := none
-  /-- request whose top-level completion is the current step's event, if it was pending -/
+  /-- request whose top-level completion is the current step's event, if it was already resolved -/
   lateOf : Option Nat := none
   /-- observations seen in the current step -/
   nobs : Nat := 0
   /-- broker clients that must be disconnected before the step ends (timeouts, disconnect_on_timeout) -/
   owedDisc : List Nat := []
   fails : List String := []
+  /-- EXTRA: connections that must be told to close before the step ends / already told -/
+  owedLose : List Nat := []
+  gone : List Nat := []
+  extraFails : List String := []
   deriving Repr
 
 def fail (s : MSt) (why : String) : MSt := { s with fails := s.fails ++ [why] }
+def failX (s : MSt) (why : String) : MSt := { s with extraFails := s.extraFails ++ [why] }
 
 def getReq (s : MSt) (k : Nat) : Option MReq := (s.reqs.filter (fun r => r.k == k)).head?
 
@@ -48,85 +52,91 @@ def setReq (s : MSt) (k : Nat) (f : MReq → MReq) : MSt :=
 
 def resolve (s : MSt) (k : Nat) : MSt := setReq s k (fun r => { r with pending := false })
 
-/-- the bound a request issued now may be armed with -/
+/-- `max(self.timeout, min_timeout)` -/
+def boundFor (cfg : Cfg) (m : Option Rat) : Rat :=
+  match m with
+  | some x => if cfg.timeout < x then x else cfg.timeout
+  | none => cfg.timeout
+
+/-- the bound a request issued now may be armed with: the client timeout, or, for a request of
+    `_send_request_to_coordinator`, `max(timeout, min_timeout)` of a call for that group -/
 def boundOk (cfg : Cfg) (s : MSt) (r : MReq) (due : Rat) : Bool :=
-  match r.group with
+  match r.grp with
   | none => due == r.issued + cfg.timeout
-  | some g =>
-    -- `max(timeout, min_timeout)` of one of the unfinished coordinator requests for that group
-    s.srtcs.any (fun e => e.2.1 == g && due == r.issued + (match e.2.2 with
-      | some m => if cfg.timeout < m then m else cfg.timeout
-      | none => cfg.timeout))
+  | some g => s.seen.any (fun e => e.1 == g && due == r.issued + boundFor cfg e.2)
 
 def endStep (s : MSt) : MSt :=
   let s0 := if s.owedDisc.isEmpty then s else fail s s!"timeout without disconnect of broker clients {s.owedDisc}"
-  let s1 := if s0.owedLose.isEmpty then s0 else fail s0 s!"the connections {s0.owedLose} that carried timed-out requests were not dropped"
+  let s1 := if s0.owedLose.isEmpty then s0 else failX s0 s!"the connections {s0.owedLose} that carried timed-out requests were not dropped"
   let s2 := match s1.lateOf with
     | some k => if s1.nobs == 1 then s1 else fail s1 s!"late reply to request {k} disturbed something"
     | none => s1
   { s2 with owedDisc := [], owedLose := [], lateOf := none }
 
+/-- a result that reports a cancellation -/
+def cancelledKind : OpRes → Bool
+  | .fail .cancelled => true
+  | .okNone => true
+  | .failedPayloads _ fl => fl.any (fun f => f.2 == .cancelled)
+  | _ => false
+
+def stepOb (cfg : Cfg) (s : MSt) (o : Ob) : MSt :=
+  let s := { s with nobs := s.nobs + 1 }
+  match o with
+  | .mk k b _ what =>
+    { s with reqs := s.reqs ++ [{ k := k, b := b, issued := s.now, grp := grpOf what }] }
+  | .setTimer (.mrtb k) due =>
+    (match getReq s k with
+     | none => fail s s!"timer for unknown request {k}"
+     | some r =>
+       let s1 := setReq s k (fun r => { r with due := some due })
+       if boundOk cfg s r due then s1 else fail s1 s!"request {k} armed with the wrong bound")
+  | .fired k _ => resolve s k
+  | .late k =>
+    (match s.lateOf with
+     | some k' => if k == k' then s else fail s s!"late {k}"
+     | none => fail s s!"request {k} reported late but it was pending")
+  | .cancelTimer (.mrtb k) =>
+    (match getReq s k with
+     | some r => if r.pending then fail s s!"timer of request {k} cancelled while it is unresolved" else s
+     | none => fail s s!"cancelTimer for unknown request {k}")
+  | .bcCancel k =>
+    -- a cancel issued by the clock at/after the due time is the timeout
+    (match s.cur, getReq s k with
+     | some (.advance _), some r =>
+       (match r.due with
+        | some due =>
+          if due ≤ s.now && cfg.disconnectOnTimeout then
+            { s with owedDisc := s.owedDisc ++ [r.b],
+                     owedLose := match r.conn with
+                       | some c => if s.gone.contains c then s.owedLose else s.owedLose ++ [c]
+                       | none => s.owedLose }
+          else s
+        | none => s)
+     | _, _ => s)
+  | .bcDisconnect b =>
+    if !cfg.disconnectOnTimeout then fail s s!"disconnect of {b} although disconnect_on_timeout is off"
+    else if s.owedDisc.contains b then { s with owedDisc := s.owedDisc.erase b }
+    else fail s s!"disconnect of {b} without a timeout"
+  | .result o r =>
+    -- EXTRA: a timeout must surface as RequestTimedOutError, never as the cancellation that implements it
+    (match s.cur with
+     | some (.advance _) => if cancelledKind r then failX s s!"operation {o}: a timed-out request surfaced as a cancellation" else s
+     | _ => s)
+  | _ => s
+
 def stepItem (cfg : Cfg) (s : MSt) : TItem → MSt
   | .ev e =>
     let s := { (endStep s) with cur := some e, nobs := 0 }
     match e with
-    | .advance dt => { s with now := s.now + dt }
-    | .srtc o g m => { s with srtcs := s.srtcs ++ [(o, g, m)] }
+    | .advance dt => if dt < 0 then s else { s with now := s.now + dt }
+    | .srtc _ g m => { s with seen := s.seen ++ [(g, m)] }
     | .fire k _ =>
-      match getReq s k with
-      | some r => if r.pending then resolve s k else { s with lateOf := some k }
-      | none => fail s s!"completion of unknown request {k}"
+      (match getReq s k with
+       | some r => if r.pending then resolve s k else { s with lateOf := some k }
+       | none => s)
     | _ => s
-  | .ob o =>
-    let s := { s with nobs := s.nobs + 1 }
-    match o with
-    | .mk k b _ what =>
-      { s with reqs := s.reqs ++ [{ k := k, b := b, issued := s.now, group := match what with | .group g => some g | _ => none }] }
-    | .setTimer (.mrtb k) due =>
-      match getReq s k with
-      | none => fail s s!"timer for unknown request {k}"
-      | some r =>
-        let s1 := setReq s k (fun r => { r with due := some due })
-        if boundOk cfg s r due then s1 else fail s1 s!"request {k} armed with the wrong bound"
-    | .fired k _ => resolve s k
-    | .late k =>
-      match s.lateOf with
-      | some k' => if k == k' then s else fail s s!"late {k}"
-      | none => fail s s!"request {k} reported late but it was pending"
-    | .cancelTimer (.mrtb k) =>
-      match getReq s k with
-      | some r => if r.pending then fail s s!"timer of request {k} cancelled while it is unresolved" else s
-      | none => fail s s!"cancelTimer for unknown request {k}"
-    | .bcCancel k =>
-      -- a cancel issued by the clock at/after the due time is the timeout
-      match s.cur, getReq s k with
-      | some (.advance _), some r =>
-        (match r.due with
-         | some due =>
-           if due ≤ s.now && cfg.disconnectOnTimeout then
-             { s with owedDisc := s.owedDisc ++ [r.b],
-                      owedLose := match r.conn with
-                        | some c => if s.gone.contains c then s.owedLose else s.owedLose ++ [c]
-                        | none => s.owedLose }
-           else s
-         | none => s)
-      | _, _ => s
-    | .bcDisconnect b =>
-      if !cfg.disconnectOnTimeout then fail s s!"disconnect of {b} although disconnect_on_timeout is off"
-      else if s.owedDisc.contains b then { s with owedDisc := s.owedDisc.erase b }
-      else fail s s!"disconnect of {b} without a timeout"
-    | .result o r =>
-      let s1 := { s with srtcs := s.srtcs.filter (fun e => !(e.1 == o)) }
-      -- a timeout must surface as RequestTimedOutError, never as the cancellation that implements it
-      let cancelledKind : Bool := match r with
-        | .fail .cancelled => true
-        | .okNone => true
-        | .failedPayloads _ fl => fl.any (fun f => f.2 == .cancelled)
-        | _ => false
-      (match s.cur with
-       | some (.advance _) => if cancelledKind then fail s1 s!"operation {o}: a timed-out request surfaced as a cancellation" else s1
-       | _ => s1)
-    | _ => s
+  | .ob o => stepOb cfg s o
   | .wrote k c => setReq s k (fun r => { r with conn := some c })
   | .lose c => { s with owedLose := s.owedLose.filter (fun x => !(x == c)), gone := s.gone ++ [c] }
   | .timers l =>
@@ -147,6 +157,10 @@ def stepItem (cfg : Cfg) (s : MSt) : TItem → MSt
 
 def run (cfg : Cfg) (tr : List TItem) : MSt := endStep (tr.foldl (stepItem cfg) {})
 
+/-- the CORE rules (proved of every model trace) -/
 def ok (cfg : Cfg) (tr : List TItem) : Bool := (run cfg tr).fails.isEmpty
+
+/-- core and extra rules (what the check evaluates on the implementation's traces) -/
+def okAll (cfg : Cfg) (tr : List TItem) : Bool := (run cfg tr).fails.isEmpty && (run cfg tr).extraFails.isEmpty
 
 end Afkak.Monitor.C11
